@@ -173,6 +173,9 @@ class PDFXRef(PDFBaseXRef):
                     raise PDFNoValidXRef(error_msg)
                 (pos_b, genno_b, use_b) = f
                 if use_b != b"n":
+                    if use_b != b"f":
+                        error_msg = f"Invalid XRef entry type: {parser!r}, line={line!r}"
+                        raise PDFNoValidXRef(error_msg)
                     continue
 
                 pos_i = safe_int(pos_b)
